@@ -338,7 +338,7 @@ func genJScalar(r *rand.Rand) *JNode {
 			ms = 30
 		}
 		s := r.Intn(ms + 1)
-		d := genDecimalDigits(r, p, s, r.Intn(7))
+		d := genDecimalDigits(r, p, s, r.Intn(9))
 		neg := r.Intn(2) == 0 && !allZero(d)
 		return &JNode{K: "dec", P: p, Sc: s, DecRaw: decimalEncode(p, s, neg, d)}
 	default:
